@@ -31,7 +31,7 @@ Definition winstr (i : instr) : bool :=
   | IWsAppend _ _ | IWsFlush _ | IWsAfter _ | ISvcEnd _ | ISetCwf _ | ISvcPop _ | ISvcTail _
   | IPull _ | IAddTask _ | IAcqO _ | IAcqR _ | IRelR _ | IWaitO _ | IWake _ _ | IContPre _ | IContAppend _
   | KFlushExc _ | KRelO _ | KRelR _ | KSvcTry _ | KSvcTry2 _ | KWorkerTop _ => true
-  | IFlushStart _ dc | IFlush _ dc | IFlushSend _ dc _ => negb dc
+  | IFlushStart _ dc | IFlush _ dc _ | IFlushSend _ dc _ _ => negb dc
   | _ => false
   end.
 
@@ -101,7 +101,7 @@ Qed.
 Definition chain_only (i : instr) : bool :=
   match i with
   | ICloseBufs _ | IDClose1 _ | IDelMapTest _ | IDelMapDo _ | IFilenoNone _ | IDelAct _ _
-  | ISockClose _ | ISockNone _ | IRelO _
+  | ISockClose _ | ISockCloseCall _ | ISockNone _ | IRelO _
   | ISetOpts _ | KAccTry _ | IInitGso _ | IInitSbl _ | IAddChan _ | ISelect _ _ _ => true
   | _ => false
   end.
@@ -116,7 +116,7 @@ Definition exempt (i : instr) : bool :=
   match i with
   | IPoll | ISelect _ _ _ | ISelWait _ _ _ | IDisp _ _ | IDisp2 _ _ _ _ _
   | IHClose _ | ICloseBufs _ | INotifyO _ | IRelO _ | IDClose1 _ | IDelMapTest _ | IDelMapDo _
-  | IFilenoNone _ | IDelAct _ _ | ISockClose _ | ISockNone _ | IAcqO _
+  | IFilenoNone _ | IDelAct _ _ | ISockClose _ | ISockCloseCall _ | ISockNone _ | IAcqO _
   | ITrigClose | ILstClose | IRwClose _ | ISetConnF _
   | KWasyn _ | KReadwrite _ | KFlushExc _ | KRelO _ | KRelR _ | KSvcTry _ | KSvcTry2 _ | KWorkerTop _ => true
   | _ => false
@@ -160,6 +160,9 @@ Inductive lead (g : cfg) (s : state) : list instr -> Prop :=
 | LC9 : forall c r, tail_ok r = true -> bufc (getc s c) = true -> in_map (getc s c) = false ->
     fileno (getc s c) = false -> in_act (getc s c) = false ->
     lead g s (ISockClose c :: r)
+| LC9b : forall c r, tail_ok r = true -> bufc (getc s c) = true -> in_map (getc s c) = false ->
+    fileno (getc s c) = false -> in_act (getc s c) = false -> sock (getc s c) = SOpen ->
+    lead g s (ISockCloseCall c :: ISockNone c :: r)
 | LC10 : forall c r, tail_ok r = true -> bufc (getc s c) = true -> in_map (getc s c) = false ->
     in_act (getc s c) = false -> sock (getc s c) = SClosed ->
     lead g s (ISockNone c :: r)
@@ -425,6 +428,7 @@ Proof.
   - apply LC7; rewrite ?B, ?M, ?A; auto.
   - apply LC8; rewrite ?B, ?M, ?A, ?N; auto.
   - apply LC9; rewrite ?B, ?M, ?A, ?N; auto.
+  - apply LC9b; rewrite ?B, ?M, ?A, ?N, ?S; auto.
   - apply LC10; rewrite ?B, ?M, ?A, ?S; auto.
   - apply LA1; auto. eapply acc_pre_tv; eauto.
   - apply LA2; auto. eapply acc_pre_tv; eauto.
@@ -792,7 +796,7 @@ Proof.
   intros g s a s' l HS R H.
   pose proof HS as (Hw & Hc & Hs & [K1 K2 K3]). specialize (K1 R).
   inversion K1 as [rr Ht|? ? ? rest Hopen Ht|c r Ht|c r Ht|c r Ht Hb|c r Ht Hb|c r Ht Hb|c r Ht Hb|c r Ht Hb Hm
-                 |c v r Ht Hb Hm Hv|c v r Ht Hb Hm Hf Hv|c r Ht Hb Hm Hf Ha|c r Ht Hb Hm Ha Hk
+                 |c v r Ht Hb Hm Hv|c v r Ht Hb Hm Hf Hv|c r Ht Hb Hm Hf Ha|c r Ht Hb Hm Hf Ha Hso|c r Ht Hb Hm Ha Hk
                  |c r Ht Hp|c r Ht Hp|c r Ht Hp|c r Ht Hp|c r Ht Hp]; stack_eq H0; rewrite H0 in K2.
   - (* LT: an ordinary instruction *)
     destruct rr as [|i rest].
@@ -962,19 +966,16 @@ Proof.
       * reflexivity.
       * eapply chan_ok_quiet; [split; auto|apply Hc]. intro Ha. congruence.
       * apply ioK_norm; auto. apply LC9; auto.
-  - (* LC9: socket.close() *)
+  - (* LC9: `if self.socket is not None` *)
     destruct (Hc c) as [J1 J2 J3 J4 J5 J6 J7].
     step_compute H R H0; cbn [app].
-    + (* open -> closed *)
-      rewrite getth_setc.
+    + (* open *)
       refine (io_finish g s _ _ c HS _ _ _ _ _).
       * others_tac HS H0.
-      * apply srv_ok_setc; auto.
-      * intro d. rewrite getth_setc. reflexivity.
-      * rewrite getc_setc_same. rewrite (J4 eq_refl). constructor; simpl; auto; chan_fin.
-        all: try (intro Hacc; destruct (J3 Hacc) as (E & _); discriminate).
-        all: try (intros _; split; auto; eexists; reflexivity).
-      * apply ioK_norm; auto. apply LC10; auto; rewrite getc_setc_same; simpl; auto.
+      * auto.
+      * reflexivity.
+      * eapply chan_ok_quiet; [split|apply Hc]; [congruence|intro; congruence].
+      * apply ioK_norm; auto. apply LC9b; auto.
     + exfalso. destruct (J7 eq_refl) as [_ [rr Er]]. rewrite H0 in Er. discriminate.
     + refine (io_finish g s _ _ c HS _ _ _ _ _).
       * others_tac HS H0.
@@ -982,6 +983,17 @@ Proof.
       * reflexivity.
       * eapply chan_ok_quiet; [split|apply Hc]; [congruence|intro; congruence].
       * apply ioK_norm; auto. apply LT; auto.
+  - (* LC9b: self.socket.close() *)
+    destruct (Hc c) as [J1 J2 J3 J4 J5 J6 J7].
+    step_compute H R H0; try (exfalso; congruence). rewrite getth_setc. cbn [app].
+    refine (io_finish g s _ _ c HS _ _ _ _ _).
+    + others_tac HS H0.
+    + apply srv_ok_setc; auto.
+    + intro d. rewrite getth_setc. reflexivity.
+    + rewrite getc_setc_same. rewrite (J4 Hso). constructor; simpl; auto; chan_fin.
+      all: try (intro Hacc; destruct (J3 Hacc) as (E & _); congruence).
+      all: try (intros _; split; auto; eexists; reflexivity).
+    + apply ioK_norm; auto. apply LC10; auto; rewrite getc_setc_same; simpl; auto.
   - (* LC10: self.socket = None *)
     step_compute H R H0. rewrite getth_setc. cbn [app].
     destruct (Hc c) as [J1 J2 J3 J4 J5 J6 J7].
